@@ -7,6 +7,7 @@ package harness
 // powers of two and round numbers) instead of sampling it.
 
 import (
+	"encoding/json"
 	"fmt"
 	"math"
 	"reflect"
@@ -49,8 +50,8 @@ func TestDepthSweep(t *testing.T) {
 		}
 		for _, f := range fams {
 			forms := []string{
-				strings.Repeat(f.open, d),                                   // cut off right after the last opener
-				strings.Repeat(f.open, d) + f.leaf,                          // the operand, no closer
+				strings.Repeat(f.open, d),                                       // cut off right after the last opener
+				strings.Repeat(f.open, d) + f.leaf,                              // the operand, no closer
 				strings.Repeat(f.open, d) + f.leaf + strings.Repeat(f.close, d), // complete
 			}
 			if f.close != "" && d > 1 {
@@ -277,4 +278,305 @@ func TestC12NonFiniteDocs(t *testing.T) {
 			run(t, withExpr(Case{Property: "C12", Kind: "nonfinite-doc"}, strings.Replace(ctx, "%s", e, -1)))
 		}
 	}
+}
+
+// ---------------------------------------------------------------------------
+// Documents that encoding/json decodes into typed Go values other than structs and slices:
+// maps with string-kind keys (also of a named string type), fixed-size arrays, json.Number,
+// json.RawMessage, pointers to pointers, integer and float32 fields. What the library computes
+// from them is not specified by any listed property; that it returns normally is (C05: "any
+// JSON-decoded document ... never panic"; C18: no expression panics on struct data).
+
+type exoColor string
+
+type exoDoc struct {
+	Colors map[exoColor]int
+	StrMap map[string]string
+	Lists  map[string][]int
+	Arr    [3]int
+	Num    json.Number
+	Raw    json.RawMessage
+	PP     **hwInner
+	Any    interface{}
+	U8     []byte
+	F32    float32
+	I      int
+	U      uint8
+	Nested map[exoColor]map[string]*hwInner
+	Empty  map[exoColor]int
+}
+
+const exoText = `{"Colors":{"red":1,"blue":2},"StrMap":{"a":"b","c":""},"Lists":{"x":[3,1,2],"y":[]},"Arr":[1,2,3],"Num":12,"Raw":{"a":[1]},"PP":{"Name":"n","Tags":["t"]},"Any":{"a":[1,"x"]},"U8":"YWI=","F32":1.5,"I":3,"U":200,"Nested":{"red":{"k":{"Name":"m","Tags":[]}}},"Empty":{}}`
+
+func exoDocs() []interface{} {
+	var d exoDoc
+	dec := json.NewDecoder(strings.NewReader(exoText))
+	dec.UseNumber()
+	if err := dec.Decode(&d); err != nil {
+		panic("HARNESS-ERROR: " + err.Error())
+	}
+	var m map[exoColor]int
+	_ = json.Unmarshal([]byte(`{"red":1,"blue":2}`), &m)
+	var sm map[string]string
+	_ = json.Unmarshal([]byte(`{"a":"b"}`), &sm)
+	var arr [3]int
+	_ = json.Unmarshal([]byte(`[1,2,3]`), &arr)
+	var num interface{}
+	dn := json.NewDecoder(strings.NewReader(`{"a":1.5,"l":[1,2e3,-0],"big":123456789012345678901234567890}`))
+	dn.UseNumber()
+	_ = dn.Decode(&num)
+	var ml map[string][]*hwInner
+	_ = json.Unmarshal([]byte(`{"x":[{"Name":"a"},null],"y":[]}`), &ml)
+	return []interface{}{d, &d, m, sm, arr, &arr, num, ml, json.Number("7"), json.RawMessage(`[1]`), []map[exoColor]int{m, nil}}
+}
+
+var exoExprs = []string{"Colors.red", "colors.red", "red", "blue", "a", "x", "x[0]", "x[0].Name", "StrMap.a", "Lists.x", "Lists.x[0]", "sort(Lists.x)", "Arr[0]", "Arr[*]", "Arr[1:]", "Arr[]", "length(Arr)", "Num", "abs(Num)", "Raw.a", "PP.Name", "PP.Tags[0]", "Any.a", "Any.a[1]",
+	"keys(Colors)", "values(StrMap)", "*", "Colors.*", "Nested.red.k.Name", "Nested.*.*.Name", "Nested.red", "Empty.red", "keys(Empty)", "U8[0]", "length(U8)", "abs(F32)", "abs(I)", "abs(U)", "I > `1`", "I == `3`", "to_string(@)", "to_string(Colors)", "length(@)", "keys(@)", "values(@)",
+	"[0]", "[*]", "[]", "[1:]", "[-1]", "[::-1]", "@ == @", "sort(Arr)", "sum(Arr)", "avg(Arr)", "max(Arr)", "max(U8)", "merge(StrMap, Colors)", "merge(@, @)", "type(Colors)", "type(Arr)", "type(Num)", "type(@)", "map(&@, Arr)", "reverse(Arr)", "reverse(@)", "join(',', Arr)", "contains(Arr, `1`)", "contains(@, `1`)",
+	"not_null(Colors)", "Colors || Arr", "!Colors", "!Empty", "!@", "Arr[?@ > `1`]", "[?@ > `1`]", "[?red]", "[*].red", "to_array(Colors)", "to_array(@)", "to_number(Num)", "to_number(@)", "a", "l", "l[0]", "sum(l)", "big", "abs(big)", "a > `1`", "sort_by(@, &@)", "max_by(@, &@)", "sort_by(Arr, &@)",
+	"{c: Colors, a: Arr}", "[Colors, Arr, Num]", "Colors | keys(@)", "Colors.red | abs(@)", "length(Colors)", "length(StrMap)", "ends_with(Num, '2')", "starts_with(@, '7')", "floor(@)", "ceil(F32)"}
+
+func init() { predicates["exotic-doc"] = predExoticDoc }
+
+func predExoticDoc(c Case) (r Result) {
+	expr := c.expr()
+	idx := 0
+	if v, ok := c.Extra["doc"].(float64); ok {
+		idx = int(v)
+	}
+	docs := exoDocs()
+	if idx < 0 || idx >= len(docs) {
+		r.Discard = "HARNESS:bad-doc-index"
+		return
+	}
+	r.Nontrivial = true
+	if p := safely(func() { _, _ = jp.Search(expr, docs[idx]) }); p != nil {
+		r.Violation = fmt.Sprintf("Search panicked on a JSON-decoded document of type %T", docs[idx])
+		r.Got = fmt.Sprint(p)
+		return
+	}
+	comp, err, pan := libCompile(expr)
+	if pan != nil || err != nil {
+		return
+	}
+	for i := 0; i < 2; i++ {
+		if p := safely(func() { _, _ = comp.Search(docs[idx]) }); p != nil {
+			r.Violation = fmt.Sprintf("a compiled Search panicked on a JSON-decoded document of type %T", docs[idx])
+			r.Got = fmt.Sprint(p)
+			return
+		}
+	}
+	return
+}
+
+// TestExoticDocs (VERIF_PROP = C05 or C18).
+func TestExoticDocs(t *testing.T) {
+	prop := envStr("VERIF_PROP", "C05")
+	n := 0
+	for i := range exoDocs() {
+		for _, e := range exoExprs {
+			for _, ctx := range []string{"%s", "[%s, %s]", "@ | %s"} {
+				run(t, withExpr(Case{Property: prop, Kind: "exotic-doc", Extra: map[string]interface{}{"doc": float64(i)}}, strings.Replace(ctx, "%s", e, -1)))
+				n++
+			}
+		}
+	}
+	st := statsFor(prop)
+	st.mu.Lock()
+	st.Exhaustive[prop+".exotic-docs"] = fmt.Sprintf("%d expressions x 3 contexts x %d documents decoded by encoding/json into typed maps (string and named-string keys), fixed-size arrays, json.Number, RawMessage, pointer chains and numeric kinds: %d cases, no-panic only", len(exoExprs), len(exoDocs()), n)
+	st.mu.Unlock()
+}
+
+// ---------------------------------------------------------------------------
+// C13: the caller's document object may change between two searches (a program that updates
+// its state and queries it again). The compiled expression is then searching another document
+// that happens to live at the same address: anything the expression remembered about the
+// object it saw before (its keys, its length, its sorted order) is history.
+
+// editInPlace changes every container of v without replacing any of them: mode 0 renames the
+// smallest key of every object (same number of members), mode 1 rotates the values among the
+// keys, mode 2 reverses every array, mode 3 adds one to every number, mode 4 swaps the first
+// two elements of every array and the values of the first two keys.
+func editInPlace(v interface{}, mode int) {
+	switch t := v.(type) {
+	case map[string]interface{}:
+		ks := ref.SortedKeys(t)
+		for _, k := range ks {
+			editInPlace(t[k], mode)
+		}
+		switch mode {
+		case 0:
+			if len(ks) > 0 {
+				nk := ks[0] + "_"
+				if _, dup := t[nk]; !dup {
+					t[nk] = t[ks[0]]
+					delete(t, ks[0])
+				}
+			}
+		case 1:
+			if len(ks) > 1 {
+				first := t[ks[0]]
+				for i := 0; i+1 < len(ks); i++ {
+					t[ks[i]] = t[ks[i+1]]
+				}
+				t[ks[len(ks)-1]] = first
+			}
+		case 3:
+			for _, k := range ks {
+				if f, ok := t[k].(float64); ok {
+					t[k] = f + 1
+				}
+			}
+		case 4:
+			if len(ks) > 1 {
+				t[ks[0]], t[ks[1]] = t[ks[1]], t[ks[0]]
+			}
+		}
+	case []interface{}:
+		for _, e := range t {
+			editInPlace(e, mode)
+		}
+		switch mode {
+		case 2:
+			for i, j := 0, len(t)-1; i < j; i, j = i+1, j-1 {
+				t[i], t[j] = t[j], t[i]
+			}
+		case 3:
+			for i := range t {
+				if f, ok := t[i].(float64); ok {
+					t[i] = f + 1
+				}
+			}
+		case 4:
+			if len(t) > 1 {
+				t[0], t[1] = t[1], t[0]
+			}
+		}
+	}
+}
+
+func init() { predicates["edited"] = predEdited }
+
+func predEdited(c Case) (r Result) {
+	expr := c.expr()
+	n, st, perr := ref.ParseText(expr)
+	if perr != nil || st != ref.LexOK {
+		r.Discard = "generator:not-a-sentence"
+		return
+	}
+	comp, cerr, pan := libCompile(expr)
+	if cerr != nil || pan != nil {
+		r.Violation = "Compile failed on a sentence"
+		return
+	}
+	live := mustJSON(c.Doc)
+	modes := []int{0, 1, 2, 3, 4, 0, 2}
+	for step := -1; step < len(modes); step++ {
+		if step >= 0 {
+			editInPlace(live, modes[step])
+		}
+		snapshot := ref.DeepCopy(live)
+		ev := &ref.Ev{}
+		want, werr := ev.Eval(n, ref.DeepCopy(snapshot))
+		var got, one libOut
+		got.Panic = safely(func() { got.Val, got.Err = comp.Search(live) })
+		one = libSearch(expr, ref.DeepCopy(snapshot))
+		if got.Panic != nil {
+			r.Violation = "Search panicked"
+			r.Got = showOut(got)
+			return
+		}
+		if !reflect.DeepEqual(live, snapshot) {
+			r.Violation = "Search modified the document"
+			return
+		}
+		r.Nontrivial = r.Nontrivial || step >= 0
+		if ev.Ambiguous {
+			continue
+		}
+		where := fmt.Sprintf("after %d in-place edits of the caller's document", step+1)
+		if (got.Err != nil) != (werr != nil) || (werr == nil && !ref.Matches(got.Val, want)) {
+			r.Violation = "a compiled expression searched the caller's document " + where + " and did not return the value of the document as it is now"
+			r.Expected, r.Got = show(want), showOut(got)
+			if werr != nil {
+				r.Expected = "error: " + werr.Error()
+			}
+			return
+		}
+		if (one.Err != nil) != (got.Err != nil) || (got.Err == nil && !hasBag(want) && show(one.Val) != show(got.Val)) {
+			r.Violation = "compiled and one-shot Search differ " + where
+			r.Expected, r.Got = showOut(one), showOut(got)
+			return
+		}
+	}
+	return
+}
+
+var editedExprs = []string{"keys(@)", "values(@)", "*", "o1.*", "keys(o1)", "values(o2)", "@.*.*", "length(@)", "length(o1)", "to_string(@)", "merge(@, @)", "merge(o1, o2)", "sort(keys(@))", "people[*].*", "people[*].keys(@)", "map(&keys(@), people)",
+	"o1.* | [0]", "keys(o1) | sort(@) | [0]", "people[0]", "people[-1].name", "nums[0]", "nums[-1]", "strs[1:]", "length(nums)", "length(people)", "lists[*][0]", "lists[]", "nested[0]", "[keys(o1), keys(o2)]", "{a: keys(o1), b: values(o1)}", "type(o1)", "contains(keys(o1), 'k')",
+	"o1.k", "o1.j", "o2.z", "o1.k_", "not_null(o1.k_, o1.k)", "people[?age > `1`].name", "max_by(people, &age).name", "sort_by(people, &name)[0].age", "sum(nums)", "join(',', strs)", "reverse(strs)", "sort(strs)"}
+
+// TestC13EditedDocs: one compiled expression, one document object edited in place seven times.
+func TestC13EditedDocs(t *testing.T) {
+	n := 0
+	for _, d := range reprDocs {
+		for _, e := range append(append([]string{}, editedExprs...), c06Templates...) {
+			run(t, Case{Property: "C13", Kind: "edited", Expr: e, Doc: d, Extra: map[string]interface{}{"cell": "edited"}})
+			n++
+		}
+	}
+	st := statsFor("C13")
+	st.mu.Lock()
+	st.Exhaustive["C13.edited-docs"] = fmt.Sprintf("%d expressions x %d documents, each searched before and after 7 in-place edits (keys renamed, values rotated, arrays reversed, numbers changed): %d histories", len(editedExprs)+len(c06Templates), len(reprDocs), n)
+	st.mu.Unlock()
+}
+
+// ---------------------------------------------------------------------------
+// C14: "whitespace between tokens is insignificant" means the four characters of the grammar
+// (space, TAB, LF, CR). Every other space-like code point outside quotes makes the text
+// unlexable - it neither separates tokens nor belongs to an identifier - while the same text
+// with a real space is a sentence with the same meaning as the tight form.
+
+var notWhitespace = []rune{0x0b, 0x0c, 0x85, 0xa0, 0x1680, 0x180e, 0x2000, 0x2001, 0x2002, 0x2003, 0x2004, 0x2005, 0x2006, 0x2007, 0x2008, 0x2009, 0x200a, 0x200b, 0x200c, 0x200d, 0x2028, 0x2029, 0x202f, 0x205f, 0x2060, 0x3000, 0xfeff, 0x1c, 0x1d, 0x1e, 0x1f, 0x00ad}
+
+func TestC14NotWhitespace(t *testing.T) {
+	tmpls := []string{"a%s.b", "a.%sb", "%sa", "a%s", "[a,%sb]", "a%s||%sb", "'x'%s", "\"a\"%s", "`1`%s", "length(%sa)", "a[%s0]", "{a:%sb}", "a |%s b", "a[?%sb]", "!%sa", "a ==%s`1`", "a[0%s]", "a[1:%s2]", "@%s", "*%s.a", "&%sa", "a%s[0]"}
+	n := 0
+	for _, tm := range tmpls {
+		// control: the real white space characters
+		for _, ws := range []string{" ", "\t", "\n", "\r", " \r\n\t "} {
+			run(t, Case{Property: "C14", Kind: "lang", Expr: strings.Replace(tm, "%s", ws, -1), Extra: map[string]interface{}{"cell": "whitespace"}})
+			n++
+		}
+		for _, r := range notWhitespace {
+			for _, form := range []string{string(r), " " + string(r), string(r) + " "} {
+				run(t, Case{Property: "C14", Kind: "lang", Expr: strings.Replace(tm, "%s", form, -1), Extra: map[string]interface{}{"cell": "not-whitespace"}})
+				n++
+			}
+		}
+	}
+	st := statsFor("C14")
+	st.mu.Lock()
+	st.Exhaustive["C14.not-whitespace"] = fmt.Sprintf("%d token boundaries x (5 real white space runs + %d other space-like or invisible code points x 3 placements): %d texts", len(tmpls), len(notWhitespace), n)
+	st.mu.Unlock()
+}
+
+// TestC15NonFinitePipe: the pipe law where the first stage yields a number beyond the float64
+// range (an overflowing sum or average) - bare, inside a list and inside an object.
+func TestC15NonFinitePipe(t *testing.T) {
+	doc := `{"p":[1e308,1e308],"n":[-1e308,-1e308],"m":[1e308,1e308,-1e308]}`
+	as := []string{"sum(p)", "avg(p) | abs(@)", "sum(n)", "sum([sum(p), sum(n)])", "[sum(p)]", "{s: sum(p)}", "map(&sum(@), [p, n])", "[sum(p), `1`]", "sum(p) || `1`", "not_null(sum(n))", "max([sum(p), `1`])", "[sum(p), sum(n)] | sort(@)"}
+	bs := []string{"type(@)", "@ > `0`", "@ < `0`", "@ == @", "[@, @] | length(@)", "to_string(@)", "not_null(@)", "abs(@)", "[@]", "{a: @}", "!@", "@ || `1`", "@ && `1`", "to_number(@)", "to_array(@)", "ceil(@)", "floor(@)", "max([@, `1`])", "sort([@, `1`])",
+		"length(@)", "@[0]", "s", "@[0] | type(@)", "s | type(@)", "sum(@)", "type(@[0])", "@ == `null`", "@ != `null`", "[?@ > `0`]", "[0] > `0`", "s > `0`", "merge(@, @)", "reverse(@)", "join(',', @)", "to_string(@) | length(@)"}
+	n := 0
+	for _, a := range as {
+		for _, b := range bs {
+			run(t, Case{Property: "C15", Kind: "pipe", Expr: a, Doc: doc, Extra: map[string]interface{}{"b": b, "cell": "non-finite-pipe"}})
+			n++
+		}
+	}
+	st := statsFor("C15")
+	st.mu.Lock()
+	st.Exhaustive["C15.non-finite-pipe"] = fmt.Sprintf("%d first stages yielding +Inf, -Inf or NaN (bare, in lists, in objects) x %d second stages: %d pipes, library against library", len(as), len(bs), n)
+	st.mu.Unlock()
 }
